@@ -189,4 +189,12 @@ def resolve (all : List Link) (decls : List Sym) (ref : Sym) : Option Sym :=
   | none => none
   | some impl => (decls.filter (isImplementation all)).find? (fun d => d.str == impl.str)
 
+/-- How a call of the bodyless function `ref` gets to an implementation. Inside the declaring package the call goes
+    through the package-level JavaScript variable, which `$initLinknames` assigns. From another package the call goes
+    through `$pkg.<Name>`; functions.go:121-123 (`translateStandaloneFunction`, `fun.Body == nil`) emits no
+    `$pkg.<Name> = …` for a bodyless function and `$initLinknames` assigns the variable only, so that property is
+    never defined. -/
+def callTarget (all : List Link) (decls : List Sym) (ref : Sym) (samePackage : Bool) : Option Sym :=
+  if samePackage then resolve all decls ref else none
+
 end GV.Linkname
